@@ -24,15 +24,15 @@ from gens.jose import ALL_JWS
 from ref import jws as rjws, jwe as rjwe, b64 as rb, keys as rk, selftest
 
 LEVEL = "exploration"
-RULE = ("(a) operations from a pool of 22 (sign/verify HS256 with two different keys, ES256, EdDSA, RS256 compact and JSON, key-set signing "
+RULE = ("(a) operations from a pool of 45 (sign/verify HS256 with two different keys, ES256, EdDSA, RS256 compact and JSON, key-set signing "
         "with random pick, A128KW / ECDH-ES / dir encrypt and decrypt, jwt encode/decode, thumbprint, ensure_kid, KeySet([...]), "
-        "KeySet.as_dict, public export, PEM export) run pairwise in two threads over shared Key / KeySet / registry objects rebuilt from "
+        "KeySet.as_dict, public export, PEM export, per-call allow-lists, caller registries, PBES2 with the right / a wrong password, keys carrying use / key_ops) run pairwise in two threads over shared Key / KeySet / registry objects rebuilt from "
         "stored material for every schedule (lazy initialisation is raced every time); the tracer switches threads only at the "
         "generated line positions: every single-preemption schedule (A runs i lines, B runs to completion, A resumes) for every ordered "
         "pair of the quick core set, 2-3 preemption schedules sampled by Hypothesis. (b) Hypothesis-generated sequences of 2-12 "
         "operations on one shared graph, each outcome compared with the isolated outcome. (c) 8-24 threads x mixed operations under "
         "sys.setswitchinterval(1e-6). Oracle: same accept/reject and exception class, same recovered content, produced tokens valid "
-        "under the reference and under the right key only, every key of a shared set has kid == thumbprint afterwards. non-trivial: a "
+        "under the reference and under the right key only, every key of a shared set has kid == thumbprint afterwards, and both calls repeated after the interleaving still behave as in isolation. non-trivial: a "
         "schedule with an actual context switch inside a joserfc frame; distinct = (op A, op B, schedule).")
 ASSUMPTIONS = ["interleavings are explored at Python line granularity inside joserfc; races inside C extensions (OpenSSL, pycryptodome) and free-threaded builds are out of reach",
                "the stress part is non-deterministic: it can only add findings, the deciding evidence is (a) and (b)"]
